@@ -30,9 +30,9 @@ TABLE_OBLIGATIONS = [
     "Ural.Props.C12.serialized_lru_splitter_probes",
 ]
 RULE = (
-    "A case is (URL string, suffix_aware). The stream is: the regression corpus (IPv6 with port, "
-    "password without user, ':' and '@' in the path, multi-label suffixes, '|' URLs ...), then a "
-    "seeded sample of the quantifier's grammar 6 scheme forms x 8 userinfo shapes x 14 host shapes "
+    "A case is a URL string with the suffix_aware modes to run it in (both, for the corpus and the grammar). The stream is: the regression corpus (IPv6 with port, "
+    "password without user, ':' and '@' in the path, multi-label suffixes, '|' URLs ...), then the quantifier's grammar (quick: a seeded sample of 12,000 URLs; thorough: "
+    "all of it) 6 scheme forms x 8 userinfo shapes x 14 host shapes "
     "(names, upper case, multi-label public suffixes, wildcard/exception suffix families, IPv4, "
     "localhost, bracketed IPv6 incl. hex groups, embedded IPv4 and zone id, punycode, non-ASCII, "
     "trailing dot) x 4 ports x 11 paths x 7 queries x 6 fragments x suffix_aware in {False,True}, "
@@ -46,9 +46,12 @@ RULE = (
     ".hostname, cleaned stems, and the same verdicts of the specification predicates (wf, no-bar, "
     "grammar host/port, expected round-trip tuple) as an independent Python implementation. "
     "Non-trivial = the URL has no '|', urlsplit accepts it and it is inside the grammar (wf); "
-    "distinct = distinct (URL, suffix_aware)."
+    "distinct = distinct (URL, modes)."
 )
-EXHAUSTIVE = {"quick": "", "thorough": ""}
+EXHAUSTIVE = {
+    "quick": "",
+    "thorough": "the whole grammar of the quantifier: 6 scheme forms x 8 userinfo shapes x 14 host shapes x 4 ports x 11 paths x 7 queries x 6 fragments = %d URLs, each with suffix_aware False and True",
+}
 TRUSTED = [
     "Lean 4 kernel; axioms of every listed theorem audited to be within {propext, Classical.choice, Quot.sound}",
     "hand-written Lean model UralModel/Model/Lru.lean of ural/lru/{stems,serialization,conversion}.py (+ is_special_host, clean_trailing_path), tied to the code by differential execution on every run (stems, LRU string, unserialized list, the 5-tuple handed to urlunsplit, the final URL)",
@@ -86,6 +89,7 @@ GRAMMAR = [SCHEMES, AUTHS, HOSTS, PORTS, PATHS, QUERIES, FRAGS]
 GRAMMAR_SIZE = 1
 for _g in GRAMMAR:
     GRAMMAR_SIZE *= len(_g)
+EXHAUSTIVE["thorough"] = EXHAUSTIVE["thorough"] % GRAMMAR_SIZE
 
 CORPUS = [
     # D34 (fixed by 915ddc4): bracketed IPv6 hosts
@@ -154,8 +158,7 @@ def rand_stem(rng):
 
 def cases(rng, tier):
     for u in CORPUS:
-        for sa in (False, True):
-            yield {"k": "url", "url": u, "sa": sa}
+        yield {"k": "url", "url": u, "sa": [False, True]}
     # fixed strings for the splitters / special hosts / urlunsplit
     for s in FIXED_STRS:
         yield {"k": "str", "s": s}
@@ -163,17 +166,19 @@ def cases(rng, tier):
         yield {"k": "unsplit", "t": list(t)}
     for st in FIXED_STEMS:
         yield {"k": "stems", "stems": st}
-    n_grammar = 24000 if tier == "quick" else 420000
     n_mut = 6000 if tier == "quick" else 80000
     n_misc = 3000 if tier == "quick" else 30000
-    for _ in range(n_grammar // 2):
-        ix = [rng.randrange(len(g)) for g in GRAMMAR]
-        u = grammar_url(ix)
-        yield {"k": "url", "url": u, "sa": False}
-        yield {"k": "url", "url": u, "sa": True}
+    if tier == "quick":
+        for _ in range(12000):
+            ix = [rng.randrange(len(g)) for g in GRAMMAR]
+            yield {"k": "url", "url": grammar_url(ix), "sa": [False, True]}
+    else:
+        # the whole grammar of the quantifier, both modes
+        for t in itertools.product(*GRAMMAR):
+            yield {"k": "url", "url": "".join(t), "sa": [False, True]}
     for _ in range(n_mut):
         ix = [rng.randrange(len(g)) for g in GRAMMAR]
-        yield {"k": "url", "url": mutate(rng, grammar_url(ix)), "sa": rng.random() < 0.5}
+        yield {"k": "url", "url": mutate(rng, grammar_url(ix)), "sa": [rng.random() < 0.5]}
     for _ in range(n_misc):
         r = rng.random()
         if r < 0.4:
@@ -372,9 +377,12 @@ def ops(case):
         if pr is None:
             return []
         A, split = pr
-        o = parts_json(A, split)
-        o.update({"f": "lru", "sa": case["sa"]})
-        return [o]
+        out = []
+        for sa in case["sa"]:
+            o = parts_json(A, split)
+            o.update({"f": "lru", "sa": sa})
+            out.append(o)
+        return out
     if k == "stems":
         return [{"f": "lru_stems", "stems": case["stems"]}]
     if k == "str":
@@ -401,6 +409,38 @@ def _tuple_and_url(C, arg):
     return (_captured[-1] if _captured else {"error": "no-urlunsplit-call"}), url
 
 
+def _impl_url(C, url, sa, A, split):
+    from ural.lru import lru_stems, url_to_lru, serialize_lru, unserialize_lru
+    from ural.lru.trie import clean_trailing_path
+
+    stems = lru_stems(url, suffix_aware=sa)
+    lru = url_to_lru(url, suffix_aware=sa)
+    tup, back = _tuple_and_url(C, list(stems))
+    _, back_s = _tuple_and_url(C, lru)
+    t = [A[0], A[1], A[2], A[3], A[4]]
+    wf = wf_parts(t)
+    out = {
+        "stems": list(stems),
+        "lru": lru,
+        "unser": list(unserialize_lru(lru)),
+        "reser": serialize_lru(unserialize_lru(lru)),
+        "tuple": tup,
+        "url": back,
+        "url_from_str": back_s,
+        "hostname": A.hostname or "",
+        "clean": list(clean_trailing_path(stems)),
+        "wf": wf,
+        "wf_sa": wf_host_sa(A[1]),
+        "nobar": "|" not in "".join(t),
+    }
+    if wf:
+        h, p = spec_hostport(hostport_of(A[1]))
+        out["spec_host"] = h
+        out["spec_port"] = "absent" if p is None else {"some": p}
+        out["expected"] = expected_tuple(t, sa, split)
+    return out
+
+
 def impl(case):
     C = _conv()
     from ural.lru import lru_stems, url_to_lru, serialize_lru, unserialize_lru
@@ -412,33 +452,7 @@ def impl(case):
         if pr is None:
             return []
         A, split = pr
-        url, sa = case["url"], case["sa"]
-        stems = lru_stems(url, suffix_aware=sa)
-        lru = url_to_lru(url, suffix_aware=sa)
-        tup, back = _tuple_and_url(C, list(stems))
-        _, back_s = _tuple_and_url(C, lru)
-        t = [A[0], A[1], A[2], A[3], A[4]]
-        wf = wf_parts(t)
-        out = {
-            "stems": list(stems),
-            "lru": lru,
-            "unser": list(unserialize_lru(lru)),
-            "reser": serialize_lru(unserialize_lru(lru)),
-            "tuple": tup,
-            "url": back,
-            "url_from_str": back_s,
-            "hostname": A.hostname or "",
-            "clean": list(clean_trailing_path(stems)),
-            "wf": wf,
-            "wf_sa": wf_host_sa(A[1]),
-            "nobar": "|" not in "".join(t),
-        }
-        if wf:
-            h, p = spec_hostport(hostport_of(A[1]))
-            out["spec_host"] = h
-            out["spec_port"] = "absent" if p is None else {"some": p}
-            out["expected"] = expected_tuple(t, sa, split)
-        return [out]
+        return [_impl_url(C, case["url"], sa, A, split) for sa in case["sa"]]
     if k == "stems":
         st = case["stems"]
         lru = _guard(lambda: serialize_lru(st))
@@ -510,7 +524,14 @@ def in_reading(A, sa):
 def oracle(case):
     if case["k"] != "url":
         return None
-    url, sa = case["url"], case["sa"]
+    for sa in case["sa"]:
+        f = oracle_url(case["url"], sa)
+        if f:
+            return "suffix_aware=%s: %s" % (sa, f)
+    return None
+
+
+def oracle_url(url, sa):
     if "|" in url:
         return None
     pr = cparse(url)
@@ -575,9 +596,9 @@ def nontrivial(case):
     pr = cparse(case["url"])
     if pr is None:
         return None
-    if not in_reading(pr[0], case["sa"]):
+    if not any(in_reading(pr[0], sa) for sa in case["sa"]):
         return None
-    return "%s|%d" % (case["url"], case["sa"])
+    return "%s|%s" % (case["url"], "".join(str(int(x)) for x in case["sa"]))
 
 
 def classify(case):
@@ -586,7 +607,8 @@ def classify(case):
     if k != "url":
         return labs
     url = case["url"]
-    labs.append("sa=%d" % case["sa"])
+    for sa in case["sa"]:
+        labs.append("sa=%d" % sa)
     pr = cparse(url)
     if pr is None:
         labs.append("urlsplit-ValueError")
@@ -594,7 +616,8 @@ def classify(case):
     A, split = pr
     if "|" in url:
         labs.append("has-bar")
-    labs.append("in-reading" if in_reading(A, case["sa"]) else "outside-reading")
+    for sa in case["sa"]:
+        labs.append(("in-reading" if in_reading(A, sa) else "outside-reading") + "/sa=%d" % sa)
     n = A[1]
     user, pw = userinfo_of(n)
     labs.append("userinfo=%s%s%s" % ("@" if "@" in n else "-", "u" if user else "", "p" if pw else ""))
@@ -605,7 +628,7 @@ def classify(case):
         labs.append("port=" + ("absent" if p is None else "empty" if p == "" else "given"))
         if h != h.lower():
             labs.append("host-upper")
-    if case["sa"]:
+    if True in case["sa"]:
         labs.append("split=" + ("none" if split is None else "suffix-only" if split[0] == "" else "%d-label-suffix" % (split[1].count(".") + 1)))
     if "//" in A[2] or A[2].endswith("/"):
         labs.append("path-empty-segment")
